@@ -281,7 +281,16 @@ func runC12(tier, replay string) {
 			run.Set("traces_validated_against_impl", 1)
 			run.Finish()
 		}
+		var tpr struct {
+			P    *tpPoint  `json:"typeparams"`
+			List []tpPoint `json:"-"`
+		}
+		var tpl []tpPoint
 		switch {
+		case loadReplay(replay, &tpr) == nil && tpr.P != nil:
+			tpCheck(run, []tpPoint{*tpr.P})
+		case loadReplay(replay, &tpl) == nil && len(tpl) > 0 && len(tpl[0].C) > 0:
+			tpCheck(run, tpl)
 		case loadReplay(replay, &cp) == nil && len(cp.Ops) > 0 && cp.Kind == "comments":
 			cmtCheck(run, cp)
 		case loadReplay(replay, &fl) == nil && len(fl.Ops) > 0:
@@ -318,6 +327,9 @@ func runC12(tier, replay string) {
 	confs := []conf{
 		{"gluing-depth2", prCfg(`{"x","y"}`, `{"+","-","/","<","&","*"}`, `{"+","-","*","&","^","<-","!"}`, `{"call","idx","sel"}`, 2, false, false)},
 		{"precedence-depth2", prCfg(`{"x"}`, `{"||","&&","==","<","+","|","*","<<","&^"}`, `{"-","!"}`, `{"call"}`, 2, false, false)},
+		// depth 3 over few operators: a binary operand that is itself a unary expression below an index or a mixed-precedence
+		// expression (the printer's compact mode: x[x & ^x], x + x&^x)
+		{"compact-mode-depth3", prCfg(`{"x"}`, `{"+","&"}`, `{"^"}`, `{"idx"}`, 3, false, false)},
 	}
 	if tier == "thorough" {
 		confs = append(confs,
@@ -428,6 +440,9 @@ func runC12(tier, replay string) {
 	// instantiated generic types): the text written by the package must parse back to the tree the builder built
 	sth, trh, nh := hdrRun(run, tier)
 	states, transitions, total = states+sth, transitions+trh, total+nh
+	// E: type parameter lists of generic type declarations (TypeParams.tla): [P *int | string,]
+	ste, tre, ne := tpRun(run, tier)
+	states, transitions, total = states+ste, transitions+tre, total+ne
 	// D: position-stripped standard-library files
 	var files []string
 	for _, dir := range []string{"sort", "strings", "go/ast", "go/token", "container/list", "container/heap", "errors", "bufio", "path", "text/tabwriter", "slices", "maps", "sync", "encoding/json", "go/printer", "go/types", "net/url", "time", "fmt", "regexp/syntax"} {
